@@ -57,6 +57,8 @@ MUTANTS = [
     ("C06", "detect", "specs/openapi/serialization.py", "        if style == \"pipeDelimited\":\n            yield delimited(name, delimiter=\"|\")", "        if style == \"pipeDelimited\":\n            yield delimited(name, delimiter=\",\")", "pipeDelimited dispatched to the comma encoder"),
     ("C06", "detect", "specs/openapi/serialization.py", "            for func in reversed(functions):", "            for func in functions:", "conversions composed in the wrong order"),
     ("C05", "detect", "cli/commands/run/context.py", "            and event.status in (Status.FAILURE, Status.ERROR)", "            and event.status in (Status.FAILURE,)", "an errored phase leaves the exit code at 0"),
+    ("C06", "detect", "transport/prepare.py", "        return unquote(urljoin(base_url, quote(path)))", "        return urljoin(base_url, quote(path))", "path values double-encoded on the wire"),
+    ("C06", "detect", "transport/prepare.py", "        if not base_url.endswith(\"/\"):\n            base_url += \"/\"", "        pass", "last segment of the base path dropped when the base URL has no trailing slash"),
     # ---- C07
     ("C07", "detect", FIL, "return any(filter_.match(ctx) for filter_ in self._includes)", "return all(filter_.match(ctx) for filter_ in self._includes)", "includes combined with all"),
     ("C07", "detect", FIL, "        return all(matcher.match(ctx) for matcher in self.matchers)", "        return any(matcher.match(ctx) for matcher in self.matchers)", "matchers of one filter combined with any"),
